@@ -46,12 +46,16 @@ CHECKS = {
     "C01": ("hypothesis PBT, type-directed program generator; differential vs independent reference interpreter",
             "Well-typed programs built by construction over the supported core instruction set x inputs x environments "
             "are run by pytezos and by a reference interpreter written from the Michelson reference; final stacks (types "
-            "and optimized Micheline, slot by slot) or the failure kind and FAILWITH payload must agree.",
+            "and optimized Micheline, slot by slot) or the failure kind and FAILWITH payload must agree. Tiers: free programs "
+            "(profiles core/combs/collections), focused programs (one instruction family forced per case), REPL sessions after "
+            "a failing cell, an arithmetic boundary grid, hash instructions over every input length 0..300.",
             "The reference interpreter is mine; it is validated at the start of every run on the 193 Octez opcode scripts "
             "and their recorded expectations shipped in tests/. Lambdas are compared by their Micheline code. "
-            "Unsupported instruction variants (bytes bitwise ops, sapling, OPEN_CHEST) are excluded.", "9/C01"),
+            "Unsupported instruction variants (bytes bitwise ops, sapling, OPEN_CHEST) are excluded. LAMBDA_REC's body stack "
+            "order and the type of MAP over an empty collection are recorded known findings (narrow signatures).", "9/C01"),
     "C02": ("hypothesis PBT, reference static typechecker vs runtime value classes (deep walk)",
-            "Same program family as C01 plus contracts through Interpreter.run_code: every final stack slot has the "
+            "Same program family as C01 plus contracts through Interpreter.run_code: after every top-level instruction "
+            "the stack has the statically computed depth and every slot has the "
             "statically computed type and every nested component instance's class agrees with its parent's type "
             "argument; returned storage parses at the declared storage type.",
             "Static types come from the generator's own typechecker (gen_programs.types_after), cross-checked against "
@@ -84,7 +88,9 @@ CHECKS = {
             "Programs over TICKET/READ_TICKET/SPLIT_TICKET/JOIN_TICKETS with stack shuffling and DUP attempts, each "
             "instruction run as its own step: stacks equal the reference's, no zero-amount ticket anywhere, total "
             "amount per (ticketer, contents) conserved, DUP of ticket-bearing values fails, results typed ticket T.",
-            "Reference ticket rules from the Lima changelog / Michelson reference.", "9/C20"),
+            "Reference ticket rules from the Lima changelog / Michelson reference. A second, reference-free tier runs arbitrary "
+            "generated ticket programs (big maps of tickets, lambdas, options) and judges only the conservation invariant over "
+            "the whole final state.", "9/C20"),
     "C31": ("hypothesis PBT, exhaustive over list length; differential vs independent Merkle reference",
             "Every list length in the tier's range is enumerated; leaves, list-of-lists, predecessor and round are "
             "hypothesis-generated; the result is compared with an independent Merkle/base58 implementation. "
@@ -102,18 +108,21 @@ CHECKS = {
     "C27": ("exhaustive enumeration of identifier forms vs reference lookup order",
             "Every identifier built from registered handler keys, their components and fresh tokens in the four "
             "stated forms, as last element of lists of length 1..3, is mapped through RpcError.from_errors and the "
-            "class compared with the reference lookup order over the live registry.",
-            "The registry is read from RpcError.__handlers__ (only 5 keys are registered today). For ids deeper than "
+            "class compared with the reference lookup order over the declared registry; each id is mapped repeatedly.",
+            "The registry is the set of error ids declared by the error classes, read from the source with ast, and must equal "
+            "RpcError.__handlers__ (only 5 keys are registered today). For ids deeper than "
             "<category>.<name> both readings of 'category' are accepted.", "9/C27"),
     "C28": ("exhaustive enumeration of outcome sequences per node count",
             "All 5^L outcome sequences (L=6 quick, 8 thorough) for 1..4 nodes; each HTTP call's URL is recorded and "
-            "must be node i mod n for the i-th client request.",
+            "must be node i mod n for the i-th client request; request styles include "
+            "calls from a second thread, node lists may name one endpoint several times.",
             "Outcomes are produced by a scripted requests.request (real Response objects / ConnectionError).", "9/C28"),
     "C29": ("exhaustive small histories + hypothesis-sampled histories vs reference change list",
             "Histories with fresh-token values (the stated precondition holds by construction): every range length up "
             "to 24/40 with <=2 change points x 4 steps exhaustively, plus sampled ranges to 300 levels, <=6 change "
             "points, steps 1..400; find_state_changes must equal the reference list in increasing order, "
-            "find_state_change the first change, get() may only be called inside [last, head].",
+            "find_state_change the first change, get() may only be called inside [last, head]. Values include None and "
+            "pairwise-distinct falsy values.",
             "Non-termination is detected deterministically by a call budget on get() (40x the range length), not by "
             "wall clock.", "9/C29"),
     "C30": ("hypothesis PBT, round-trip oracle (apply/revert) on edit-script text pairs and protocol pairs",
@@ -132,7 +141,8 @@ CHECKS = {
             "Every table row: extremes (=> all payloads by monotonicity) and random payloads round-trip with the "
             "documented prefix/length and equal the reference encoding; corrupted strings (valid-checksum variants "
             "included) that the reference decoder rejects must be rejected by base58_decode and every is_* predicate; "
-            "pairwise table ambiguity check; table compared with an independently written registry.",
+            "pairwise table ambiguity check; table compared with an independently written registry; every ordered pair of "
+            "kinds decoded back to back in one process (state between calls); hex / padded respellings.",
             "The registry in vlib/ref_crypto.py is written from Tezos' base58.ml from memory; each row was confirmed by "
             "computing min/max encodings (prefix and length agree).", "9/C09"),
     "C05": ("hypothesis PBT (trees, near-pairs, byte mutations) + exhaustive short strings + atheris differential fuzzing",
@@ -146,7 +156,8 @@ CHECKS = {
     "C33": ("hypothesis PBT, differential vs reference expansion with independently computed expression hashes",
             "Acyclic constant graphs (chains to depth 5) and scripts with references at leaf/argument/sequence/root "
             "positions, unknown hashes, reference-free scripts; registry key == reference hash, expansion == reference "
-            "expansion, input not mutated, unknown raises, ContractInterface sees the expanded script.",
+            "expansion, input not mutated, unknown raises, ContractInterface sees the expanded script; every context is "
+            "asked twice and again after late registration.",
             "Hash = b58('expr', blake2b-256(reference binary encoding)), the same construction C05 validates.", "9/C33"),
     "C18": ("hypothesis PBT, grammar-generated type/data/code/script Micheline, parse(format(e)) == e in both layouts",
             "Expressions are generated from a grammar of Michelson types, data, code and scripts (every type primitive, "
@@ -178,19 +189,20 @@ CHECKS = {
             "Forged bytes come from the reference codec of C06 (endorsement: branch || 00 || level).", "9/C23"),
     "C03": ("hypothesis PBT, differential vs reference total order + order axioms + collection literals/UPDATE",
             "Comparable types to depth 2/3 with near-by value pairs/triples: COMPARE sign vs reference order, "
-            "antisymmetry, reflexivity, transitivity; sorted set/map literals accepted and kept, UPDATE-built sets "
-            "sorted, unsorted/duplicate literals rejected.",
+            "antisymmetry, reflexivity, transitivity; sorted set/map/big_map literals accepted and kept, UPDATE-built sets "
+            "sorted, unsorted/duplicate literals rejected; signatures in every base58 spelling, same-curve key pairs.",
             "Reference order written from script_comparable / Signature / Destination compare; three sub-cases are "
-            "left unconstrained in direction (P-256 keys of different parity, signatures of different length, default "
-            "entrypoint vs a name sorting below 'default').", "9/C03"),
+            "left unconstrained in direction (P-256 keys of different parity, signatures of different length).", "9/C03"),
     "C04": ("hypothesis PBT differential vs reference PACK + byte mutations + atheris campaign on UNPACK",
             "pack() and PACK == reference bytes; unpack/UNPACK invert; mutated strings the strict reference decoder "
-            "rejects make UNPACK return None and unpack raise; thorough adds a coverage-guided campaign with the "
+            "rejects make UNPACK return None and unpack raise; a cross-type tier unpacks at another leaf type of the same "
+            "Micheline kind (three-valued leaf predicate); thorough adds a coverage-guided campaign with the "
             "oracle in the target.",
             "Annotation-free types (annotations are C17's subject); lambda bodies without optimizable literals.", "9/C04"),
     "C10": ("hypothesis PBT, reference byte layout + round trip in bytes space + helper inverses",
             "Domain values alone and nested: optimized bytes equal the reference layout, read back to the same value, "
-            "forge/unforge helpers are inverse, blind_unpack of fixed-length forms returns the encoded kind.",
+            "forge/unforge helpers are inverse, blind_unpack of fixed-length forms (chain ids and signatures that look "
+            "like packed data included) returns the encoded kind.",
             "txr1 addresses are exercised under pytezos' own tx_rollup_l2_address type; blind_unpack is judged only "
             "on fixed-length forms (an address+entrypoint can be byte-identical to a public key).", "9/C10"),
     "C11": ("hypothesis PBT, round trip through readable/optimized/legacy_optimized with reference parser as validity predicate",
@@ -206,7 +218,8 @@ CHECKS = {
     "C21": ("hypothesis PBT of group/field laws against scalar arithmetic mod r and own point serialisation",
             "G1/G2 points kG (k=0 infinity, 1, 2, r-1, full-width), Fr scalars incl. 0, r-1, r, r+1, negatives: "
             "addition, negation, scalar multiplication, associativity, distributivity, Fr ring ops, INT, encodings, "
-            "PAIRING_CHECK on balanced/perturbed/empty/infinity lists.",
+            "PAIRING_CHECK on balanced/perturbed/empty/infinity lists, lists with repeated pairs, each list evaluated "
+            "twice in one process.",
             "Expected points are computed with py_ecc (same library pytezos uses) along a different computation path "
             "and serialised by the check itself.", "9/C21"),
 }
